@@ -283,6 +283,48 @@ def ob_config():
     return exhaustive(cases(), check)
 
 
+@obligation("config/instances_do_not_share_state", kind="exhaustive", timeout=300,
+            desc="frame between objects: for every class and order (BPSK, QPSK, PSK 2..64, QAM 4..1024) two instances built one after the "
+                 "other do not share their constellation memory; after one instance's symbols were changed IN PLACE (or its phase offset / "
+                 "constellation set), a newly built instance and the other existing one are exactly what a fresh process would build, "
+                 "and still round-trip")
+def ob_independent():
+    from pyphysim.modulators import fundamental as f
+
+    def cases():
+        yield {"cls": "BPSK", "args": []}
+        yield {"cls": "QPSK", "args": []}
+        for M in (2, 4, 8, 16, 32, 64):
+            yield {"cls": "PSK", "args": [M]}
+            yield {"cls": "PSK", "args": [M, 0.3]}
+        for M in (4, 16, 64, 256, 1024):
+            yield {"cls": "QAM", "args": [M]}
+
+    def check(case):
+        cls = getattr(f, case["cls"])
+        a = cls(*case["args"])
+        ref = np.array(a.symbols, copy=True)
+        b = cls(*case["args"])
+        if np.shares_memory(a.symbols, b.symbols):
+            return {"two instances share the constellation array": True}
+        a.symbols *= 2                                       # in-place change of ONE object
+        c_ = cls(*case["args"])
+        for name, o in (("existing", b), ("new", c_)):
+            if not np.array_equal(np.asarray(o.symbols), ref):
+                return {"%s instance changed by an in-place change of another" % name: np.asarray(o.symbols)[:4].tolist(), "expected": ref[:4].tolist()}
+            idx = np.arange(o.M)
+            if not np.array_equal(o.demodulate(o.modulate(idx)), idx):
+                return {"%s instance no longer round-trips" % name: True}
+        if hasattr(a, "setPhaseOffset"):
+            a2 = cls(*case["args"])
+            a2.setPhaseOffset(1.1)
+            d_ = cls(*case["args"])
+            if not np.array_equal(np.asarray(d_.symbols), ref):
+                return {"new instance changed by setPhaseOffset on another": True}
+        return None
+    return exhaustive(cases(), check)
+
+
 @obligation("config/unsupported_cardinalities_rejected", kind="exhaustive", timeout=900,
             desc="PSK(M) for every M in 2..4100 raises unless M is a power of two (>= 2); QAM(M) for every M in 2..4100 raises unless M is 4^k")
 def ob_reject():
